@@ -75,6 +75,20 @@ RemoveKidF(m, j, k) ==
 \* rel.children[k] = Feature(same name, parent=owner)   (a new object under the old name; the old child is a leaf)
 ReplaceKidF(m, j, k) == LET n == m.rels[j].kids[k]
                         IN  [m EXCEPT !.feats[FeatIdx(m, n)] = Feat(n, m.rels[j].owner)]
+\* rel1.children.remove(f); rel2.add_child(f); f.parent = rel2.parent   (f moves with its subtree)
+MoveKidF(m, j1, k, j2) ==
+  LET n == m.rels[j1].kids[k]
+  IN  [m EXCEPT !.rels[j1].kids = SelectSeq(@, LAMBDA x : x # n),
+                !.rels[j2].kids = Append(@, n),
+                !.feats[FeatIdx(m, n)].par = m.rels[j2].owner]
+\* model.import_model(sub_root, parent, ctcs): the constraints not yet in the model are appended, in order
+\* (the library compares constraints by the text of their trees)
+RECURSIVE ImportCtcs(_, _)
+ImportCtcs(ctcs, new) ==
+  IF new = <<>> THEN ctcs
+  ELSE LET c == Head(new)
+       IN  ImportCtcs(IF \E i \in DOMAIN ctcs : ctcs[i].ast = c.ast THEN ctcs ELSE Append(ctcs, c), Tail(new))
+ImportF(m, new) == [m EXCEPT !.ctcs = ImportCtcs(@, new)]
 \* feature.is_abstract = not feature.is_abstract
 ToggleAbstractF(m, f) == [m EXCEPT !.feats[FeatIdx(m, f)].abs = ~@]
 \* attribute.set_default_value(v)
